@@ -149,7 +149,7 @@ def run(ctx: Ctx):
     n_core, n_expl = (80, 24) if ctx.tier == 'quick' else (500, 120)
     i = 0
     for cs in cases(ctx, 'c07', n_core):      # same seeds as C07 on purpose: same scores
-        pname, over = MC.PROFILES[i % len(MC.PROFILES)]
+        pname, over = MC.profiles(ctx.tier)[i % len(MC.profiles(ctx.tier))]
         one(ctx, cs, pname, over, core=True)
         i += 1
     for cs in cases(ctx, 'c07x', n_expl):
